@@ -15,10 +15,15 @@ echo "|---|---|---|---|"
 } > $OUT
 for id in $ids; do
   p=${id%%-*}
-  r=$(tools/trial.sh seeded/$id/patch.diff $p 2>&1 | tail -1)
-  code=$(echo "$r" | sed -E 's/.*exit=([0-9]+).*/\1/')
-  sig=$(echo "$r" | sed -E 's/^[^ ]+ exit=[0-9]+ violations=[0-9]+ ?//' | tr '|' '/')
-  res="MISSED"; [ "$code" = 1 ] && res="detected"; [ "$code" = 2 ] && res="machinery exit"
-  echo "| $id | $p | $res | $sig |" >> $OUT
-  echo "$id $r"
+  props=$(python3 -c "import json;d=json.load(open('seeded/$id/meta.json'));print(' '.join(d.get('check_with',['$p'])))")
+  out=$(tools/trial.sh seeded/$id/patch.diff $props 2>&1 | grep -E '^C[0-9]+ exit=')
+  res="MISSED"; sig=""; by=""
+  while read -r line; do
+    code=$(echo "$line" | sed -E 's/.*exit=([0-9]+).*/\1/'); pid=${line%% *}
+    if [ "$code" = 1 ]; then res="detected"; by="$by $pid"; [ -z "$sig" ] && sig=$(echo "$line" | sed -E 's/^[^ ]+ exit=[0-9]+ violations=[0-9]+ ?//' | tr '|' '/'); fi
+  done <<< "$out"
+  note=$(python3 -c "import json;d=json.load(open('seeded/$id/meta.json'));print(d.get('expected_detection',''))")
+  [ -n "$note" ] && [ "$res" = MISSED ] && res="not reported ($note)"
+  echo "| $id | $p | $res${by:+ by$by} | $sig |" >> $OUT
+  echo "$id $res $by"
 done
